@@ -259,31 +259,34 @@ fn main() {
                     let name = f.sig.ident.to_string();
                     out.push_str(&weave::emit_fn(None, &name, f, &mut contracts, &mut ctx, &mut report_fns, &mut assumed));
                 }
-                syn::Item::Impl(im) => {
+                syn::Item::Impl(mut im) => {
                     let ty = type_name(&im.self_ty);
+                    rules::Rules { ctx: &mut ctx }.visit_generics_mut(&mut im.generics);
+                    let gens = { let g = &im.generics; quote!(#g).to_string() };
+                    let ty_key = ty.split('<').next().unwrap_or(&ty).to_string();
                     let trait_name = im.trait_.as_ref().map(|(_, p, _)| p.segments.last().map(|s| s.ident.to_string()).unwrap_or_default());
                     let mut body = String::new();
                     for it in im.items {
                         match it {
                             syn::ImplItem::Fn(m) => {
                                 let key = match &trait_name {
-                                    Some(t) => format!("impl {} for {}::{}", t, ty, m.sig.ident),
-                                    None => format!("impl {}::{}", ty, m.sig.ident),
+                                    Some(t) => format!("impl {} for {}::{}", t, ty_key, m.sig.ident),
+                                    None => format!("impl {}::{}", ty_key, m.sig.ident),
                                 };
                                 if !wanted.contains(&key) { continue; }
                                 seen.insert(key.clone());
                                 let name = match &trait_name {
-                                    Some(t) => format!("<{} for {}>::{}", t, ty, m.sig.ident),
-                                    None => format!("{}::{}", ty, m.sig.ident),
+                                    Some(t) => format!("<{} for {}>::{}", t, ty_key, m.sig.ident),
+                                    None => format!("{}::{}", ty_key, m.sig.ident),
                                 };
                                 let f = syn::ItemFn { attrs: vec![], vis: syn::Visibility::Inherited, sig: m.sig, block: Box::new(m.block) };
                                 body.push_str(&weave::emit_fn(Some(&ty), &name, f, &mut contracts, &mut ctx, &mut report_fns, &mut assumed));
                             }
                             syn::ImplItem::Const(c) => {
-                                let key = format!("implconst {}::{}", ty, c.ident);
+                                let key = format!("implconst {}::{}", ty_key, c.ident);
                                 if !wanted.contains(&key) { continue; }
                                 seen.insert(key.clone());
-                                let name = format!("{}::{}", ty, c.ident);
+                                let name = format!("{}::{}", ty_key, c.ident);
                                 let f = const_to_fn(&c.ident, &c.ty, &c.expr);
                                 ctx.used("R20");
                                 body.push_str(&weave::emit_fn(Some(&ty), &name, f, &mut contracts, &mut ctx, &mut report_fns, &mut assumed));
@@ -293,12 +296,12 @@ fn main() {
                     }
                     if !body.is_empty() {
                         match &trait_name {
-                            Some(t) if !ctx.opts["inherent_trait_impls"].as_bool().unwrap_or(true) => out.push_str(&format!("impl {} for {} {{\n{}}}\n", t, ty, body)),
+                            Some(t) if !ctx.opts["inherent_trait_impls"].as_bool().unwrap_or(true) => out.push_str(&format!("impl{} {} for {} {{\n{}}}\n", gens, t, ty, body)),
                             Some(t) => {
                                 // trait impls are emitted as inherent impls with a prefixed name is NOT done; keep inherent
-                                out.push_str(&format!("// impl {} for {} (emitted as inherent methods)\nimpl {} {{\n{}}}\n", t, ty, ty, body));
+                                out.push_str(&format!("// impl {} for {} (emitted as inherent methods)\nimpl{} {} {{\n{}}}\n", t, ty, gens, ty, body));
                             }
-                            None => out.push_str(&format!("impl {} {{\n{}}}\n", ty, body)),
+                            None => out.push_str(&format!("impl{} {} {{\n{}}}\n", gens, ty, body)),
                         }
                     }
                 }
@@ -382,10 +385,12 @@ fn emit_struct(mut s: syn::ItemStruct, ctx: &mut Ctx, assumed: &mut Vec<String>,
         f.attrs.clear();
     }
     let name = s.ident.to_string();
+    let generic = !s.generics.params.is_empty();
+    rules::Rules { ctx }.visit_generics_mut(&mut s.generics);
     let mut o = String::new();
     o.push_str(&derive_text(&name, &derives, ctx, assumed));
     o.push_str(&unparse_items(vec![syn::Item::Struct(s)]));
-    o.push_str(&clone_impl_text(&name, &derives, ctx, assumed));
+    if !generic { o.push_str(&clone_impl_text(&name, &derives, ctx, assumed)); }
     o
 }
 
